@@ -246,6 +246,29 @@ def handle_trace(ctx, name, trace, cmdline, model_check=True):
         mtxt = ""
         if mm:
             mtxt = (f"\nmodel disagreement at step {mm.group(2)}: op=[{mm.group(3)}]\n   model says [{mm.group(4)}]\n   implementation showed [{mm.group(5)}]\n")
+        if complaints and any(l.startswith("init seq") for l in lines[:2]):
+            # a sequential case can be replayed: what it shows must show again (twice tried) before it counts —
+            # the children are real /bin/sh processes on a shared machine (a TERM that arrives in the instant
+            # between a shell's pending-signal check and its blocking read is only seen when the read returns)
+            pre = prefix_for_replay(lines, 10 ** 9)
+            seen = []
+            for att in (1, 2):
+                rp = os.path.join(ctx.work, f"cf_{cid}_{att}.in"); ro = os.path.join(ctx.work, f"cf_{cid}_{att}.out")
+                open(rp, "w").write(f"case {cid}\n" + "\n".join(pre) + "\n")
+                C.run(drv("-replay", rp, "-out", ro, "-dir", os.path.join(ctx.work, "markers")), timeout=600)
+                if os.path.exists(ro):
+                    for rcid, rl in C.parse_trace_cases(ro).items():
+                        seen += [r for r, _ in judge_case(rl)]
+            kept = [c for c in complaints if c[0] in seen]
+            if not kept:
+                ctx.cov.setdefault("notes", []).append(f"unreproduced: case {cid}: {complaints[0][1]} (not seen again in two replays)")
+                ctx.cov["unreproduced"] = ctx.cov.get("unreproduced", 0) + 1
+                complaints = []
+                if not mm:
+                    n_bad -= 1
+                    continue
+            else:
+                complaints = kept
         if complaints:
             for rule, desc in complaints[:3]:
                 ctx.violation(f"C19:{rule}", f"supervisor: {desc}",
